@@ -27,6 +27,13 @@ type Mutant struct {
 	Expect   []string `json:"expect"` // rule ids, any of which must be violated
 	Note     string   `json:"note"`
 	Benign   bool     `json:"benign,omitempty"` // behaviour-preserving edit: the check must stay silent
+	More     []Edit   `json:"more,omitempty"`   // further edits belonging to the same variant (e.g. an import)
+}
+
+type Edit struct {
+	File string `json:"file"`
+	Old  string `json:"old"`
+	New  string `json:"new"`
 }
 
 type MutantResult struct {
@@ -97,6 +104,15 @@ func runMutant(self, repo, verif string, mu Mutant, scratchRoot string, baseline
 	if err := os.WriteFile(target, []byte(strings.Replace(string(src), mu.Old, mu.New, 1)), 0o644); err != nil {
 		res.Status, res.Details = "stale", err.Error()
 		return res
+	}
+	for _, e := range mu.More {
+		t2 := filepath.Join(repoCopy, e.File)
+		s2, err := os.ReadFile(t2)
+		if err != nil || strings.Count(string(s2), e.Old) != 1 {
+			res.Status, res.Details = "stale", "secondary edit anchor not found exactly once in "+e.File
+			return res
+		}
+		os.WriteFile(t2, []byte(strings.Replace(string(s2), e.Old, e.New, 1)), 0o644)
 	}
 	cmd := exec.Command(self, "-property", mu.Property, "-tier", "quick", "-repo", repoCopy, "-verif", verifCopy)
 	cmd.Env = append(os.Environ(), "VERIF_TIER=quick")
